@@ -18,7 +18,7 @@ tier: B
 backend: cadical
 unwind: 8
 unwind_thorough: 12
-bound: map size <= 4, all key and value keys
+bound: map size <= 4, all key and value keys [thorough tier: lengths up to 5]
 funcs: spif_linked_list_set, spif_linked_list_insert, spif_objpair_new_from_both, spif_objpair_init_from_both, spif_objpair_comp, spif_objpair_set_value
 */
 /*@unit
@@ -29,7 +29,7 @@ tier: B
 backend: cadical
 unwind: 8
 unwind_thorough: 12
-bound: map size <= 4, all key and value keys
+bound: map size <= 4, all key and value keys [thorough tier: lengths up to 5]
 funcs: spif_linked_list_map_get, spif_linked_list_has_key, spif_linked_list_has_value, spif_linked_list_count, spif_objpair_comp
 */
 /*@unit
@@ -40,7 +40,7 @@ tier: B
 backend: cadical
 unwind: 8
 unwind_thorough: 12
-bound: map size <= 4, all key and value keys (incl. smallest / largest / only key)
+bound: map size <= 4, all key and value keys (incl. smallest / largest / only key) [thorough tier: lengths up to 5]
 funcs: spif_linked_list_map_remove, spif_objpair_comp
 */
 /*@unit
@@ -51,7 +51,7 @@ tier: B
 backend: cadical
 unwind: 8
 unwind_thorough: 12
-bound: map size <= 4, all key and value keys; result list NULL or an empty linked_list
+bound: map size <= 4, all key and value keys; result list NULL or an empty linked_list [thorough tier: lengths up to 5]
 funcs: spif_linked_list_get_keys, spif_linked_list_get_values
 */
 /*@unit
@@ -62,7 +62,7 @@ tier: B
 backend: cadical
 unwind: 8
 unwind_thorough: 12
-bound: map size <= 4, all key and value keys; result list NULL or an empty linked_list
+bound: map size <= 4, all key and value keys; result list NULL or an empty linked_list [thorough tier: lengths up to 5]
 funcs: spif_linked_list_get_pairs, spif_objpair_dup
 */
 /*@unit
@@ -73,7 +73,7 @@ tier: B
 backend: cadical
 unwind: 8
 unwind_thorough: 12
-bound: map size <= 4, all key and value keys
+bound: map size <= 4, all key and value keys [thorough tier: lengths up to 5]
 funcs: spif_linked_list_iterator, spif_linked_list_iterator_has_next, spif_linked_list_iterator_next
 */
 #include "vprelude.h"
